@@ -155,7 +155,7 @@ CLAIMS['C04'] = {
              ' Theorems tree_stats_total / fast_total_exact: the program tree_stats() never panics, reads only, and its free total plus the frames hidden by '
              'Offline equals the exact total that stats() reports - fast = exact - offline as program outputs, in every invariant state (partition argument over '
              'the slot ranges). Theorem validate_passes: all assertions of validate() hold (it runs to the end without panic, reading only) in every invariant state '
-             'without offline trees.' + PART + 'stats_at(order 0) / is_free and the end-of-interleaving statement for the tree counters are carried by '
+             'without offline trees. Theorems stats_at_frame_exact / is_free_exact: the per-frame query reports one free frame exactly if the frame is not allocated and is_free(frame, order) answers exactly whether every frame of the aligned in-range block is free, for every order 0..TREE_ORDER (counter shortcuts, single-row mask test, whole-row loop, table-entry loop), reading only.' + PART + 'the end-of-interleaving statement for the tree counters is carried by '
              'the accounting oracle of the sequential and concurrent correspondence.'),
     'note': TB + ' Upper-level theorems hold for configurations satisfying CfgOk (class ids < 8, ordered policy, tree size < 2^19: every configuration of the repository; derived from elementary checks by CfgOk.of_checks); they depend on the C23 theorem (bv_decide axioms) through the lower search.',
     'technique': 'Lean 4 theorems from the lower and upper invariants + accounting oracle in the sequential differential and at quiescent ends of co-simulated interleavings',
@@ -199,8 +199,7 @@ CLAIMS['C09'] = {
              'local.rs and llfree.rs on these paths (asserts, unwrap/expect, slice indexing, checked arithmetic, bit-field setter bounds) is an '
              'explicit panic outcome of the model and is unreachable; new_then_history_never_panics includes the free-all / allocate-all construction for '
              'every frame count incl. 0.' ' tree_stats_never_panics: the statistics program never panics and reads only; Init::Recover from every weak-invariant state: C05 '
-             '(recover_then_history); validate_never_panics: all assertions of validate() hold in every invariant state without offline trees.' + PART + 'stats_at(order 0) / is_free are carried by the correspondence '
-             '(every call under catch_unwind in an overflow-checked build).'),
+             '(recover_then_history); validate_never_panics: all assertions of validate() hold in every invariant state without offline trees; queries_never_panic: stats_at(frame, 0) and is_free(frame, order) return a value and read only for every in-range frame / aligned in-range block of order <= TREE_ORDER (the arguments the source asserts). Every public call is thereby covered for configurations satisfying CfgOk; the correspondence (every call under catch_unwind in an overflow-checked build) ties the model to the source.'),
     'note': TB + ' Upper-level theorems hold for configurations satisfying CfgOk (class ids < 8, ordered policy, tree size < 2^19: every configuration of the repository; derived from elementary checks by CfgOk.of_checks); they depend on the C23 theorem (bv_decide axioms) through the lower search.',
     'technique': 'Lean 4 total-correctness proof over all call histories (no-panic = Outcome.ok in the sequential semantics) + sequential differential with panic capture',
 }
